@@ -154,6 +154,15 @@ def run(repo: Repo, rep: Report, tier: str) -> None:
         sub = f"{utils.relpath}:_serialize_with_tracking return #{i + 1}"
         recursive_items = any(isinstance(c.func, ast.Attribute) and c.func.attr == "_serialize_with_tracking" and len(c.args) == 2 and is_vis(c.args[1])
                               for c in ast.walk(vi) if isinstance(c, ast.Call))
+        if not recursive_items and isinstance(r.value, ast.Name):
+            # a list built item by item: `out = []` ... `out.append(<recursive call>)` ... `return out`
+            nm = r.value.id
+            inits = [v for k_, v, _ in WL.defs.get(nm, []) if v is not None]
+            apps = [c for c in calls_in(swt.node) if isinstance(c.func, ast.Attribute) and isinstance(c.func.value, ast.Name) and c.func.value.id == nm]
+            if inits and all(isinstance(v, ast.List) and not v.elts for v in inits) and apps and all(
+                    c.func.attr == "append" and c.args and any(isinstance(x, ast.Call) and isinstance(x.func, ast.Attribute) and x.func.attr == "_serialize_with_tracking"
+                                                                and len(x.args) == 2 and is_vis(x.args[1]) for x in ast.walk(c.args[0])) for c in apps):
+                recursive_items = True
         if (isinstance(r.value, ast.Name) and WL.root(r.value.id) == p_obj) or (isinstance(r.value, ast.Constant) and r.value.value is None) or "b64encode" in norm(vi):
             rep.ok("R16.3", sub, f"`return {v[:50]}`: primitive / cycle marker / encoded bytes", swt.loc(r))
         elif "_remove_none_values" in norm(vi) or recursive_items:
@@ -446,26 +455,50 @@ def rule_strip_descends(repo: Repo, rep: Report, rule: str = "R16.10") -> None:
                 continue
         break
     p = [a for a in fn.params if a not in ("self", "cls")][0]
+    from sa.cfg import guards as _g1610
+
+    cfg = CFG(fn.node)
+    dom = cfg.dominators()
+    # names the function itself goes by inside its body: its own name, and locals bound to it (`strip = DataclassSerializer._remove_none_values`)
+    selfnames = {fn.name}
+    for st in own_nodes(fn.node):
+        if isinstance(st, ast.Assign) and len(st.targets) == 1 and isinstance(st.targets[0], ast.Name) and (
+                (isinstance(st.value, ast.Attribute) and st.value.attr == fn.name) or (isinstance(st.value, ast.Name) and st.value.id == fn.name)):
+            selfnames.add(st.targets[0].id)
+
+    def is_self_call(c: ast.AST) -> bool:
+        return isinstance(c, ast.Call) and ((isinstance(c.func, ast.Attribute) and c.func.attr in selfnames) or (isinstance(c.func, ast.Name) and c.func.id in selfnames))
+
+    def branch_of(node_id: int) -> Set[str]:
+        """container kinds the object is known to be on the way to this node (`isinstance(obj, dict)` true, or `not isinstance(obj, dict)` false)"""
+        out: Set[str] = set()
+        for g, pol in _g1610(cfg, node_id, dom):
+            if g.kind != "test" or pol is None:
+                continue
+            t, pl = g.ast, pol
+            while isinstance(t, ast.UnaryOp) and isinstance(t.op, ast.Not):
+                t, pl = t.operand, not pl
+            if isinstance(t, ast.Call) and dotted(t.func) == "isinstance" and len(t.args) == 2 and isinstance(t.args[0], ast.Name) and t.args[0].id == p and pl:
+                for k in ("dict", "list"):
+                    if k in norm(t.args[1]):
+                        out.add(k)
+        return out
+
+    ret_nodes = [n for n in cfg.nodes if n.kind == "stmt" and isinstance(n.ast, ast.Return) and not n.copy]
     n_br = 0
     for branch in ("dict", "list"):
-        ifs = [n for n in own_nodes(fn.node) if isinstance(n, ast.If) and any(
-            isinstance(x, ast.Call) and dotted(x.func) == "isinstance" and len(x.args) == 2 and isinstance(x.args[0], ast.Name) and x.args[0].id == p
-            and branch in norm(x.args[1]) for x in ast.walk(n.test))]
         sub = f"{utils.relpath}:{fn.qualname} {branch} branch"
-        if not ifs:
+        nodes = [n for n in ret_nodes if branch in branch_of(n.id)]
+        rets = [n.ast for n in nodes]
+        if not rets:
             rep.violation(rule, sub, f"{fn.fq}|strip-branch-missing|{branch}", f"no `isinstance({p}, {branch})` branch: {branch} members are not searched for None values", fn.loc())
             continue
         n_br += 1
-        rets = [r for st in ifs[0].body for r in ast.walk(st) if isinstance(r, ast.Return)]
         bare = [r for r in rets if r.value is None or (isinstance(r.value, ast.Name) and r.value.id == p)]
-        recursive = [r for r in rets if r.value is not None and any(
-            isinstance(c, ast.Call) and ((isinstance(c.func, ast.Attribute) and c.func.attr == fn.name) or (isinstance(c.func, ast.Name) and c.func.id == fn.name))
-            for c in ast.walk(r.value))]
+        recursive = [r for r in rets if r.value is not None and any(is_self_call(c) for c in ast.walk(r.value))]
         # a return of a local that was built from recursive calls counts as recursive
-        built = {t.id for st in ifs[0].body for a in ast.walk(st) if isinstance(a, (ast.Assign, ast.AnnAssign, ast.Expr))
-                 for t in ast.walk(a) if isinstance(t, ast.Name) and any(
-                     isinstance(c, ast.Call) and ((isinstance(c.func, ast.Attribute) and c.func.attr == fn.name) or (isinstance(c.func, ast.Name) and c.func.id == fn.name))
-                     for c in ast.walk(a))}
+        built = {t.id for a in own_nodes(fn.node) if isinstance(a, (ast.Assign, ast.AnnAssign, ast.Expr))
+                 for t in ast.walk(a) if isinstance(t, ast.Name) and any(is_self_call(c) for c in ast.walk(a))}
         other = [r for r in rets if r not in bare and r not in recursive and not (isinstance(r.value, ast.Name) and r.value.id in built)]
         if bare:
             rep.violation(rule, sub, f"{fn.fq}|strip-returns-container-unsearched|{branch}",
@@ -474,5 +507,5 @@ def rule_strip_descends(repo: Repo, rep: Report, rule: str = "R16.10") -> None:
         elif other:
             rep.error(f"{rule}: cannot evaluate `{norm(other[0])[:60]}` in the {branch} branch of {fn.qualname}")
         else:
-            rep.ok(rule, sub, "every return is built from recursive calls on the members", fn.loc(ifs[0]))
+            rep.ok(rule, sub, "every return is built from recursive calls on the members", fn.loc(rets[0]))
     rep.count(f"{rule}:branches", n_br)
